@@ -199,6 +199,11 @@ func main() {
 			}
 		}
 		op := J{"op": "report", "addr": h.Addr, "api": "api-" + h.Addr, "locals": locals, "adv": adv, "plog_inc": plogInc, "plog": plog}
+		// what the NodeHost knows, noted before the call (the call must not change what it was given)
+		wantReps := []int{}
+		for _, lo := range nhi.ShardInfoList {
+			wantReps = append(wantReps, len(lo.Replicas))
+		}
 		if err := h.dc.SendNodeHostInfo(ctx(), dAddr, nhi, "api-"+h.Addr, plogInc); err != nil {
 			run.Count("c18:inconclusive_report")
 			continue
@@ -242,6 +247,33 @@ func main() {
 		}
 		if c == 0 {
 			run.Sample(op)
+		}
+		// the same NodeHost info goes to the next Drummer server when the first one fails after answering the version query
+		// (NodeHostClient.reportNodeHostInfo tries the servers in turn with one info value): this one knows nothing, so
+		// every entry has to carry its details
+		for i, lo := range nhi.ShardInfoList {
+			if len(lo.Replicas) != wantReps[i] {
+				fail("report_truthful", "report-changed-its-input", fmt.Sprintf("shard %d: SendNodeHostInfo changed the NodeHost info it was given (%d members before the call, %d after)", lo.ShardID, wantReps[i], len(lo.Replicas)), op)
+				break
+			}
+		}
+		d.mu.Lock()
+		d.indexes = map[uint64]uint64{}
+		d.mu.Unlock()
+		if err := h.dc.SendNodeHostInfo(ctx(), dAddr, nhi, "api-"+h.Addr, plogInc); err == nil {
+			d.mu.Lock()
+			got2 := d.last[h.Addr]
+			d.mu.Unlock()
+			op2 := J{"op": "report", "addr": h.Addr, "api": "api-" + h.Addr, "locals": locals, "adv": [][]uint64{}, "plog_inc": plogInc, "plog": plog}
+			run.OpLine(op2)
+			run.OutLine(reportLine(got2))
+			run.Count("case:report_resent_to_another_server")
+			for i, si := range got2.ShardInfo {
+				if i < k && (si.Incomplete || len(si.Replicas) != wantReps[i]) {
+					fail("never_hides_news", "news-hidden-on-failover", fmt.Sprintf("shard %d: the info sent again to a server that does not know the shard carries incomplete=%v and %d members, the NodeHost knows %d", si.ShardId, si.Incomplete, len(si.Replicas), wantReps[i]), op2)
+					break
+				}
+			}
 		}
 	}
 	h.stop()
